@@ -878,8 +878,9 @@ fn run_map_window<const N: usize>(g: &mut Gen, steps: usize, out: &mut impl Writ
             cage.m.insert(Key::new(c as Cls, 0), Val::new((c % 3) as u8));
         }
     }
-    // watched keys: the first slots, the slots around index 65 536, the last slots, and absent keys
-    let mut pool: Vec<Cls> = vec![0, 1, 2, 255, 256, 65_534, 65_535, 65_536, 65_537, 65_538];
+    // watched keys: the first slots, slots on both sides of the power-of-two boundaries 2^8, 2^10, 2^12, 2^15, 2^16,
+    // the last slots, and absent keys
+    let mut pool: Vec<Cls> = vec![0, 1, 2, 255, 256, 1_023, 1_024, 4_095, 4_096, 32_767, 32_768, 65_534, 65_535, 65_536, 65_537, 65_538];
     pool.extend([(fill - 3) as Cls, (fill - 2) as Cls, (fill - 1) as Cls]);
     pool.extend((0..10).map(|j| 70_000 + j as Cls));
     pool.sort();
